@@ -571,7 +571,7 @@ def rule_R(toks, au, opts=None):
     toks = rule_letchain(toks, au)
     toks = rule_whilelet(toks, au)
     toks = rule_drain(toks, au)
-    toks = rule_for(toks, au, opts.get("for", "auto"))
+    toks = rule_for(toks, au, opts.get("for", "auto"), set(filter(None, opts.get("forref", "").split(","))))
     return toks
 
 
@@ -836,7 +836,7 @@ def _contains_kw_at_loop_level(body, kws):
     return False
 
 
-def rule_for(toks, au, mode):
+def rule_for(toks, au, mode, forref=()):
     """for P in E { B }  with continue/break inside B  ->  index loop over the collected vector:
        let vx_vN = E; let mut vx_iN: usize = 0; while vx_iN < vx_vN.len() { let P = vx_vN[vx_iN]; vx_iN += 1; B }
     `for P in E` over other iterables stays a native `for` (Verus supports those without continue)."""
@@ -869,7 +869,8 @@ def rule_for(toks, au, mode):
                 for x in pre[1:]:
                     if x.ws == "":
                         pass
-                amp = "&" if (it and is_p(it[0], "&")) else ""
+                # `for x in S` over a slice parameter S named by the recipe (forref=S) yields references
+                amp = "&" if (it and is_p(it[0], "&")) or (len(it) == 1 and it[0].text in forref) else ""
                 first = toks_of(" let") + [_w(x, " " if idx == 0 else x.ws) for idx, x in enumerate(pat)] + toks_of(f" = {amp}{v}[{ix}]; {ix} += 1;")
                 new = _space(pre) + [_w(body[0], " ")] + _space(first) + body[1:]
                 toks[i:close + 1] = new
